@@ -362,8 +362,13 @@ theorem find_projection (fs : FSMap) (cb : List String) (c : Config PP.Entry)
 /-! ### non-vacuity of Part 2
 
 The hypotheses `findI … = .ok r` are satisfiable: the following runs are EVALUATED at
-compile time (`#guard`; a test, not a proof — the preprocessor model uses `partial`
-recursion, so the kernel cannot unfold it).  `h.h` is protected by `#pragma once`, defines
+compile time (`#guard`; a test, not a proof).  They stay `#guard`s although the macro expander is now
+the total `MX.cbiExpand` (`PP.condValue`): `findI` is the instance over the design-phase multi-file
+visitor `PP.assocFile` (`PP/Find.lean`), whose recursion through `#include` is a `partial def`
+(the total, fuelled counterpart is `FindCache.findC` of Part 3, which the driver also executes and
+compares); and even `findC (semC fs)` does not reduce in the kernel, because the path functions of the
+file-system layer (`normpath`, `dirname`, `splitext`: `String.splitOn`, defined by well-founded
+recursion) get stuck there.  `h.h` is protected by `#pragma once`, defines
 `H`, and shows different lines depending on `A`; it is re-processed for every command. -/
 
 def demoFs : FSMap := [
